@@ -36,6 +36,9 @@ def main():
         # a proof obligation no longer checks: the property is no longer shown.  The
         # correspondence below still runs and acts as the failing-input search.
         chk.notes["proof_broken"] = (log if not ok else proof["log"])[-1500:]
+        # ... with the thorough tier's budget (about ten times the quick one), whatever tier was asked for
+        chk.tier = "thorough"
+        chk.notes["search_widened"] = "proof obligation broken: failing-input search run with the thorough-tier budget"
     try:
         mod.run(chk)
     except Exception:  # noqa: BLE001
